@@ -11,7 +11,7 @@ ID = "C09"
 TOL = 2e-5   # api-core derives per-attempt timeouts through datetime (microsecond resolution)
 
 PROFILE = grammar.profile(
-    p_service_config=1.0, p_sstream=0.15, p_cstream=0.0, p_bidi=0.0, p_lro=0.15, p_yaml=0.1,
+    p_service_config=1.0, p_sstream=0.15, p_cstream=0.0, p_bidi=0.0, p_lro=0.15, p_yaml=0.1, p_list=0.7,
     transports=["grpc", "grpc", "grpc+rest"], p_custom=0.6, p_get=1.0)
 
 BUDGET = {
@@ -22,7 +22,8 @@ ASSUMPTIONS = ["maxAttempts is not judged (the generator ignores it and the prop
 
 REQUIRED_PROBES = ["retry_fired", "deadline_exhausted", "nonretryable_surface", "unnamed_method_called",
                    "async_retry_fired", "explicit_retry", "explicit_timeout", "attempt_deadline_fired",
-                   "timeout_without_retry", "retry_without_timeout", "rest_call", "rest_retry_fired"]
+                   "timeout_without_retry", "retry_without_timeout", "rest_call", "rest_retry_fired", "paged_call",
+                   "later_page_fetch_walked"]
 
 
 def gen_spec(rng):
@@ -90,12 +91,22 @@ def _msg_fields(spec, full):
     return {f["name"] for f in m["fields"]}
 
 
+def paged_methods(spec):
+    from . import c07
+    return [(fs, s, m, cls) for fs, s, m, cls in c07.list_methods(spec) if cls is not None]
+
+
 def gen_scenarios(spec, rng, n):
     meths = eligible_methods(spec)
+    paged = paged_methods(spec)
+    codec = None
+    if paged:
+        from .. import protos
+        files, _ = protos.lower(spec)
+        codec = protos.Codec(files)
     if not meths:
         return []
     transports = spec["options"]["transport"].split("+")
-    codec = None
     out = []
     for i in range(n):
         kinds = []
@@ -108,6 +119,16 @@ def gen_scenarios(spec, rng, n):
         nact = 1 if client != "async" else rng.randint(1, 3)
         actors = [{"start": round(rng.choice([0, 0, 0.01, 0.3]) * (a > 0), 3), "ops": []} for a in range(nact)]
         for j in range(nops):
+            if paged and client != "rest" and rng.random() < 0.2:
+                from . import c07
+                fs, s, m, cls = rng.choice(paged)
+                op = c07.gen_op(spec, rng, codec, fs, s, m, cls, f"o{j}", client)
+                for k2 in ("nested", "stop_after", "think", "read_attrs"):
+                    op.pop(k2, None)
+                op["lat"] = rng.choice([0.0, 0.01, 0.3])
+                op["jitter"] = [rng.choice([0.0, 0.5, 1.0]) for _ in range(12)]
+                rng.choice(actors)["ops"].append(op)
+                continue
             fs, s, m = rng.choice(meths)
             if client == "rest" and not m.get("http"):
                 continue
@@ -197,7 +218,8 @@ def gen_op(spec, rng, fs, s, m, oid, client):
 
 
 def server_factory(run):
-    return engine.scripted_server(run)
+    from . import c06
+    return c06.server_factory(run)      # paged ops -> page-history server, others -> scripted server
 
 
 def execute(world, scenario):
@@ -263,66 +285,106 @@ def judge_op(spec, scenario, op, evs, probes):
     invoke = next(e for e in evs if e["k"] == "invoke")
     attempts = [e for e in evs if e["k"] == "attempt"]
     ends = {e["n"]: e for e in evs if e["k"] == "attempt_end"}
+    servers = {e["n"]: e for e in evs if e["k"] == "server"}
     outcome = next((e for e in evs if e["k"] in ("return", "raise")), None)
     if outcome is None:
         return V("no_outcome", "the call neither returned nor raised")
-    script = op["server"]
     jit = list(op.get("jitter") or [])
     jd = scenario.get("jitter_default", 1.0)
-    t0 = invoke["t"]
+    ctx = {"T": T, "pol": pol, "retry_T": retry_T, "jit": jit, "jd": jd, "path": path, "ends": ends, "servers": servers,
+           "client": scenario["client"], "probes": probes}
+    if op["kind"] == "paged":
+        # every page fetch is one call of the wrapped method: the call's retry/timeout (default or
+        # explicit) must govern EACH of them
+        _bump(probes, "paged_call")
+        rest = list(attempts)
+        t0 = invoke["t"]
+        fetch = 0
+        last = None
+        while rest:
+            t0 = rest[0]["t"] if fetch else invoke["t"]
+            r = walk_call(ctx, rest, t0, first_fetch=(fetch == 0))
+            if r.get("viol"):
+                rule, msg = r["viol"]
+                return V(rule, f"page fetch #{fetch}: {msg}")
+            rest = rest[r["used"]:]
+            last = r
+            fetch += 1
+            if r["status"] != "ok":
+                break
+            if fetch >= 2:
+                _bump(probes, "later_page_fetch_walked")
+        if rest:
+            return V("extra_attempt", f"{len(rest)} more attempt(s) after the call had ended with {last['status']}")
+        if last is not None and last["status"] == "raise":
+            if outcome["k"] != "raise" or outcome.get("cls") != last["cls"]:
+                return V("wrong_exception", f"expected {last['cls']}, got {outcome['k']} {outcome.get('cls')}")
+        elif outcome["k"] != "return":
+            return V("wrong_outcome", f"all fetches succeeded but the iteration raised {outcome.get('cls')}: {outcome.get('msg')}")
+        return []
+    r = walk_call(ctx, attempts, invoke["t"], first_fetch=True)
+    if r.get("viol"):
+        return V(*r["viol"])
+    if r["used"] != len(attempts):
+        return V("extra_attempt", f"the call ended after attempt {r['used']} ({r['status']}) but {len(attempts) - r['used']} more attempt(s) followed")
+    if r["status"] == "ok":
+        if outcome["k"] != "return":
+            return V("wrong_outcome", f"attempt {r['used']} succeeded but the call raised {outcome.get('cls')}")
+    elif outcome["k"] != "raise" or outcome.get("cls") != r["cls"]:
+        return V("wrong_exception", f"expected {r['cls']} ({r['why']}), got {outcome['k']} {outcome.get('cls')}")
+    # bounded liveness: outcome is delivered at the instant the model stopped
+    if abs(outcome["t"] - r["t_end"]) > TOL:
+        return V("liveness", f"outcome delivered at t={outcome['t']:.6f}, model says {r['t_end']:.6f}")
+    return []
+
+
+def walk_call(ctx, attempts, t0, first_fetch=True):
+    """Walk the attempts of ONE call of a wrapped method against the retry/deadline reference model.
+    Returns {"status": ok|raise, "cls", "why", "t_end", "used"} or {"viol": (rule, msg)}."""
+    T, pol, retry_T, probes = ctx["T"], ctx["pol"], ctx["retry_T"], ctx["probes"]
     expect_t = t0
     k = 0
     while True:
         k += 1
         if k > len(attempts):
-            return V("missing_attempt", f"model expects attempt {k} at t={expect_t:.6f} but the client stopped after "
-                     f"{len(attempts)} attempt(s) with {outcome['k']} {outcome.get('cls')}")
+            return {"viol": ("missing_attempt", f"model expects attempt {k} at t={expect_t:.6f} but the client issued only "
+                             f"{len(attempts)} attempt(s)")}
         a = attempts[k - 1]
-        if a.get("tr") != "rest" and a["path"] != path:
-            return V("wrong_path", f"attempt {k} went to {a['path']}")
-        if abs(a["t"] - expect_t) > TOL:
-            return V("attempt_time", f"attempt {k} started at t={a['t']:.6f}, model says {expect_t:.6f} "
-                     f"(previous wait must equal f*min(initial*mult^(k-1), max))")
-        # per-attempt deadline
+        if a.get("tr") != "rest" and a["path"] != ctx["path"]:
+            return {"viol": ("wrong_path", f"attempt {k} went to {a['path']}")}
+        if (k > 1 or first_fetch) and abs(a["t"] - expect_t) > TOL:
+            return {"viol": ("attempt_time", f"attempt {k} started at t={a['t']:.6f}, model says {expect_t:.6f} "
+                             f"(previous wait must equal f*min(initial*mult^(k-1), max))")}
         to = a["timeout"]
         if T is None:
             if to is not None:
-                return V("unexpected_deadline", f"attempt {k} carries timeout={to} but no timeout is configured/requested")
+                return {"viol": ("unexpected_deadline", f"attempt {k} carries timeout={to} but no timeout is configured/requested")}
         else:
             if to is None:
-                return V("missing_deadline", f"attempt {k} carries no timeout; expected {T}")
+                return {"viol": ("missing_deadline", f"attempt {k} carries no timeout; expected {T}")}
             if k == 1 and abs(to - T) > TOL:
-                return V("first_attempt_deadline", f"attempt 1 carries timeout={to}; expected {T}")
+                return {"viol": ("first_attempt_deadline", f"attempt 1 carries timeout={to}; expected {T}")}
             if k > 1 and not (0 < to <= T + TOL):
-                return V("later_attempt_deadline", f"attempt {k} carries timeout={to}; expected within (0, {T}]")
-        o = script[min(k, len(script)) - 1]
+                return {"viol": ("later_attempt_deadline", f"attempt {k} carries timeout={to}; expected within (0, {T}]")}
+        o = ctx["servers"].get(a["n"]) or {}
         lat = o.get("lat", 0.0)
         if to is not None and lat > to and a.get("tr") != "rest":   # (the HTTP adapter does not model read timeouts)
             code, dur = "DEADLINE_EXCEEDED", to
             _bump(probes, "attempt_deadline_fired")
         else:
             code, dur = o.get("code"), lat
-        end = ends.get(k)
+        end = ctx["ends"].get(a["n"])
         t_end = a["t"] + dur
         if end is None or abs(end["t"] - t_end) > TOL:
-            return V("harness_attempt_end", f"attempt {k} end event inconsistent: {end} vs {t_end}")
+            return {"viol": ("harness_attempt_end", f"attempt {k} end event inconsistent: {end} vs {t_end}")}
         if code is None:
-            if k != len(attempts):
-                return V("extra_attempt", f"attempt {k} succeeded but {len(attempts) - k} more attempt(s) followed")
-            if outcome["k"] != "return":
-                return V("wrong_outcome", f"attempt {k} succeeded but the call raised {outcome.get('cls')}")
-            break
+            return {"status": "ok", "t_end": t_end, "used": k}
         _bump(probes, "faults_injected")
         if pol is None or code not in pol["codes"]:
-            if k != len(attempts):
-                return V("retried_nonretryable", f"{code} is not retryable for this call "
-                         f"({'no retry policy' if pol is None else pol['codes']}) but attempt {k + 1} followed")
-            exp = engine.CODE_TO_EXC[code].__name__
-            if outcome["k"] != "raise" or outcome.get("cls") != exp:
-                return V("wrong_exception", f"expected {exp} after {code}, got {outcome['k']} {outcome.get('cls')}")
             _bump(probes, "nonretryable_surface")
-            break
-        f = jit[k - 1] if k - 1 < len(jit) else jd
+            return {"status": "raise", "cls": engine.CODE_TO_EXC[code].__name__, "t_end": t_end, "used": k,
+                    "why": f"{code} is not retryable for this call ({'no retry policy' if pol is None else pol['codes']})"}
+        f = ctx["jit"][a["n"] - 1] if a["n"] - 1 < len(ctx["jit"]) else ctx["jd"]
         bound = min(pol["initial"] * (pol["multiplier"] ** (k - 1)), pol["maximum"])
         sleep = f * bound
         over = (t_end - t0) + sleep - retry_T if retry_T is not None else None
@@ -330,29 +392,22 @@ def judge_op(spec, scenario, op, evs, probes):
             # exact tie between "now + wait" and the retry deadline: float rounding decides inside
             # api-core; the property does not -> accept either continuation (counted, not judged)
             _bump(probes, "deadline_tie_skipped")
-            over = 1.0 if (k == len(attempts) and outcome.get("cls") == "RetryError") else -1.0
+            nxt = attempts[k] if k < len(attempts) else None
+            over = -1.0 if (nxt is not None and abs(nxt["t"] - (t_end + sleep)) <= TOL) else 1.0
         if over is not None and over > 0:
-            if k != len(attempts):
-                return V("attempt_after_deadline", f"after attempt {k} (t={t_end - t0:.6f}s since start) the next wait "
-                         f"{sleep:.6f}s crosses the retry deadline {retry_T}s, but attempt {k + 1} followed")
-            if outcome["k"] != "raise" or outcome.get("cls") != "RetryError":
-                return V("wrong_exception", f"expected RetryError at the retry deadline, got {outcome['k']} {outcome.get('cls')}")
             _bump(probes, "deadline_exhausted")
             if (t_end - t0) > 120:
                 _bump(probes, "outage_over_120s")
-            break
+            return {"status": "raise", "cls": "RetryError", "t_end": t_end, "used": k,
+                    "why": f"after attempt {k} ({t_end - t0:.6f}s since start) the next wait {sleep:.6f}s crosses the retry deadline {retry_T}s"}
         _bump(probes, "retry_fired")
-        if scenario["client"] == "rest":
+        if ctx["client"] == "rest":
             _bump(probes, "rest_retry_fired")
-        if is_async:
+        if ctx["client"] == "async":
             _bump(probes, "async_retry_fired")
         if (t_end - t0) + sleep > 120:
             _bump(probes, "outage_over_120s")
         expect_t = t_end + sleep
-    # bounded liveness: outcome is delivered at the instant the model stopped
-    if abs(outcome["t"] - t_end) > TOL:
-        return V("liveness", f"outcome delivered at t={outcome['t']:.6f}, model says {t_end:.6f}")
-    return []
 
 
 def shape(scenario, history):
